@@ -6,8 +6,10 @@ import RichModel.Lemmas.ConsolePrint
 /-!
 # C15 — recording, capture and export agree with what was written
 
-Property theorems only (helper lemmas live in `Lemmas/Console`, `Lemmas/Html`, `Lemmas/ConsoleHtml`, `Lemmas/ConsoleNest`,
-`Lemmas/ConsoleDoc`).
+Property theorems only, 31 (helper lemmas live in `Lemmas/Console`, `Lemmas/Html`, `Lemmas/ConsoleHtml`, `Lemmas/ConsoleNest`,
+`Lemmas/ConsoleDoc`, `Lemmas/ConsolePrint`).  What `print` of plain strings appends to the buffer is derived in
+`Model/ConsolePrint.lean` (`print_plain_segments`, `export_text_of_prints`); the default `code_format` is the table
+`Gen/ConsoleHtmlFormat.lean`, regenerated from rich/console.py on every run (`export_html_document_default…`).
 
 The model (`Model/Console.lean`) is parameterised by the code variant.  The theorems are proved for the
 *repaired* behaviour (`recordInRender = false`: the record is appended to where the file is written,
